@@ -39,6 +39,9 @@ struct Caller {
     /// the task awaiting get_record_from_network (aborted by Step::Cancel = the caller gives up)
     handle: Option<tokio::task::JoinHandle<()>>,
     cancelled: bool,
+    untagged: bool,
+    /// the caller retries with back-off (its command is sent again later)
+    retrying: bool,
 }
 
 struct QueryModel {
@@ -270,7 +273,12 @@ impl<'a> World<'a> {
                 n += 1;
                 match cmd {
                     NetworkSwarmCmd::GetNetworkRecord { key, sender, cfg } => {
-                        let caller = self.callers.iter().position(|c| cfg.expected_holders.contains(&c.tag));
+                        let caller = if cfg.expected_holders.is_empty() {
+                            // the only caller whose command is outstanding and that carries no tag
+                            self.callers.iter().position(|c| c.untagged && (!c.cmd_handled || c.retrying))
+                        } else {
+                            self.callers.iter().position(|c| cfg.expected_holders.contains(&c.tag))
+                        };
                         let before_list = self.driver.verif_pending_get_record();
                         let before: HashSet<QueryId> = before_list.iter().map(|p| p.query_id).collect();
                         let res = self.driver.verif_handle_network_cmd(NetworkSwarmCmd::GetNetworkRecord { key, sender, cfg });
@@ -515,12 +523,15 @@ impl<'a> World<'a> {
                 let (q, qv) = quorum_of(*quorum);
                 let target = target.map(|t| t % self.plan.n_versions);
                 let tag = data::ed_key(self.plan.seed, 900 + c as u64).public().to_peer_id();
+                // callers are told apart by a tag in `expected_holders`; when no other caller's command is still
+                // on its way to the driver, every other caller is sent without one (the usual reader names no holder)
+                let untagged = self.callers.iter().all(|o| o.cmd_handled || o.cancelled) && (self.plan.seed.rotate_right(c as u32) & 1) == 1;
                 let is_register = matches!(target.map(|t| &self.versions[t as usize].kind), Some(VKind::Reg { .. }));
                 let cfg = GetRecordCfg {
                     get_quorum: q,
                     retry_strategy: if *retry { Some(RetryStrategy::Quick) } else { None },
                     target_record: target.map(|t| self.record_of(t as usize)),
-                    expected_holders: [tag].into_iter().collect(),
+                    expected_holders: if untagged { Default::default() } else { [tag].into_iter().collect() },
                     is_register,
                 };
                 let result = Arc::new(Mutex::new(None));
@@ -535,7 +546,7 @@ impl<'a> World<'a> {
                         s.split(['(', '{', ' ']).next().unwrap_or("").to_string()
                     }));
                 });
-                self.callers.push(Caller { quorum: qv, target, tag, attached: vec![], result: res2, judged: false, cmd_handled: false, handle: Some(handle), cancelled: false });
+                self.callers.push(Caller { quorum: qv, target, tag, attached: vec![], result: res2, judged: false, cmd_handled: false, handle: Some(handle), cancelled: false, untagged, retrying: *retry });
                 self.rep.ops += 1;
                 self.rep.log(format!("call: caller {c} quorum={qv} target={target:?} retry={retry}"));
                 self.drain().await;
